@@ -196,7 +196,7 @@ def run(ctx, exe, tier, seed, n=None, rows=None, timeout_s=None):
     """Returns (issues, stats)."""
     all_rows = table(ctx) if rows is None else rows
     if n is None:
-        n = 260 if tier == "quick" else 5000
+        n = 900 if tier == "quick" else len(all_rows)
     picked = sample(all_rows, n, seed)
     tpath = os.path.join(ctx.work, "selfcal-rows.txt")
     write_table(tpath, picked)
@@ -223,7 +223,7 @@ def run(ctx, exe, tier, seed, n=None, rows=None, timeout_s=None):
                 break
     issues += issues_from_leaks(ctx, tr)
     res = vlib.validate_sharded("LMLoopTrace.tla", "LMLoopTrace.cfg", tr,
-                                ctx.work, max_failures=60)
+                                ctx.work, max_failures=8)
     ctx.machinery_errors += res["errors"]
     issues += issues_from_validation(ctx, res, "table rows")
     stats["events"] = res["events"]
